@@ -553,6 +553,16 @@ impl BytecodeBuilder {
         self.registers.free(r);
     }
 
+    /// Remember the current register allocation level (see `release_registers_to_mark`)
+    pub fn mark_registers(&mut self) {
+        self.registers.save();
+    }
+
+    /// Release every register allocated since the matching `mark_registers`
+    pub fn release_registers_to_mark(&mut self) {
+        self.registers.restore();
+    }
+
     /// Reserve a range of consecutive registers
     pub fn reserve_registers(&mut self, count: usize) -> Result<Register, JsError> {
         // Registers are 8-bit: refuse oversized constructs here instead of letting the
